@@ -385,6 +385,20 @@ Proof.
   apply in_entries in He. cbn. apply Z.ltb_lt. eapply H; eauto.
 Qed.
 
+Lemma nonneg_b_nonneg : forall g, nonneg_b g = true -> nonneg g.
+Proof.
+  intros g H u v w He. apply in_entries in He. unfold nonneg_b in H.
+  rewrite forallb_forall in H. specialize (H _ He). cbn in H. apply Z.leb_le. exact H.
+Qed.
+
+Lemma result_ok_sound : forall g s t c fo wp r, result_ok g s t c fo wp r -> result_sound g s t c fo wp r.
+Proof.
+  intros g s t c fo wp r [H1 [H2 H3]]. split; [exact H1|]. split; [|exact H3].
+  intros [v [x ps]] Hin. specialize (H2 _ Hin). cbn in H2 |- *.
+  destruct H2 as [Hd [Hc [Hn Hp]]]. split; [exact Hd|]. split; [exact Hc|]. split; [exact Hn|].
+  intros Hwp. destruct (Hp Hwp) as [Hs [Ho _]]. auto.
+Qed.
+
 Lemma check_entry_ok : forall g s d cutoff fo wp e, dist_cert g s d ->
   check_entry g d s cutoff fo wp e = true -> entry_ok g s cutoff fo wp e.
 Proof.
